@@ -177,7 +177,46 @@ def handoff_race(run, prop, classes, all_rejects):
         handle_rejects(run, prop, rejects, tp, classes, label, all_rejects)
 
 
-def wrapper_pipeline(run, prop, names, negs, classes, random_n=0, extra_invs=None, handoff=False):
+TEMPORAL = {"Blocking": {"WakeUp", "CancelWakes", "DeadlineWakes"}, "QueueBlocking": {"WakeUp", "CancelWakes", "TimeoutWakes"}}
+
+
+def live_cfg(consts, spec, props):
+    c = dict(consts)
+    c["Emit"] = False
+    lines = ["CONSTANTS"] + ["  %s = %s" % (k, configs.tla_val(v)) for k, v in c.items()]
+    lines += ["SPECIFICATION " + spec] + ["PROPERTY " + p for p in props] + ["CHECK_DEADLOCK FALSE"]
+    return "\n".join(lines) + "\n"
+
+
+def wrapper_liveness(run, names, negs, temporal, serve):
+    """Temporal properties under weak fairness of the library's own steps (LiveSpec), and - for the configurations
+    without cancellation and time-outs - service of every caller when moreover callers arrive and holders complete
+    (ServeSpec).  The as-delivered designs must violate WakeUp."""
+    for name in names:
+        module, consts = configs.WRAPPER[name]
+        props = sorted(set(temporal) & TEMPORAL[module])
+        if props:
+            r = run.tlc(module, name + "_live.cfg", cfg_text=live_cfg(consts, "LiveSpec", props), label="live:%s" % name, coverage=False)
+            if r.error or not r.ok:
+                raise Machinery("TLC %s: %s %s on the implementation-shaped model\n%s" % (r.label, r.error, r.violation, r.raw[-4000:]))
+            run.states += r.distinct
+            run.transitions += r.generated
+            run.extra.setdefault("liveness", []).append({"run": r.label, "spec": "LiveSpec", "properties": props, "distinct": r.distinct})
+        if serve and name in LIVE:
+            r = run.tlc(module, name + "_serve.cfg", cfg_text=live_cfg(consts, "ServeSpec", ["AllServed"]), label="serve:%s" % name, coverage=False)
+            if r.error or not r.ok:
+                raise Machinery("TLC %s: %s %s on the implementation-shaped model\n%s" % (r.label, r.error, r.violation, r.raw[-4000:]))
+            run.states += r.distinct
+            run.transitions += r.generated
+            run.extra.setdefault("liveness", []).append({"run": r.label, "spec": "ServeSpec", "properties": ["AllServed"], "distinct": r.distinct})
+    for name in negs:
+        module, consts, inv = configs.NEG[name]
+        tp = {"NoLostWakeup": "WakeUp", "DeadlineBound": "DeadlineWakes"}.get(inv)
+        if tp and tp in temporal:
+            run.neg(module, "negl_" + name + ".cfg", cfg_text=live_cfg(consts, "LiveSpec", [tp]), label="neg-live:%s/%s" % (name, tp))
+
+
+def wrapper_pipeline(run, prop, names, negs, classes, random_n=0, extra_invs=None, handoff=False, temporal=(), serve=False):
     """mc (+ graph emission) of the implementation-shaped models, negs, replay of every transition on the
     real limiters, validation of the recorded executions against the contract WrapperTrace.
     Rejections whose class is in `classes` are violations of `prop`."""
@@ -204,6 +243,8 @@ def wrapper_pipeline(run, prop, names, negs, classes, random_n=0, extra_invs=Non
         module, consts, inv = configs.NEG[name]
         text = configs.cfg_text(consts, [inv], [], emit=False)
         r = run.neg(module, "neg_" + name + ".cfg", cfg_text=text, label="neg:%s" % name)
+    if temporal or serve:
+        wrapper_liveness(run, names, negs, temporal, serve)
     all_rejects = []
     for prefix in sorted(kinds):
         test = "^TestBlockingReplay$" if prefix == "blocking" else "^TestQueueReplay$"
@@ -256,7 +297,7 @@ def c10(run):
     th = run.tier == "thorough"
     names = ["b3", "b3f", "d2", "q2", "q3s", "q3n"] + (["b3p", "b3l2", "d3", "d3f", "q3", "q3l", "b4", "q4", "q4t"] if th else [])
     wrapper_pipeline(run, "C10", names, ["b3-asdelivered-lostwake", "b3f-asdelivered-lostwake", "q3-asdelivered-lostwake", "q3-unbuffered-lostwake"],
-                     {"lostwake"}, random_n=2000 if th else 300, extra_invs=LIVE, handoff=True)
+                     {"lostwake"}, random_n=2000 if th else 300, extra_invs=LIVE, handoff=True, temporal=("WakeUp",), serve=True)
 
 
 def c11(run):
@@ -275,13 +316,15 @@ def c12(run):
 def c13(run):
     th = run.tier == "thorough"
     names = ["b2c", "d2", "q2", "q3s", "d3"] + (["b3p", "d3f", "q3", "q4t", "b3"] if th else [])
-    wrapper_pipeline(run, "C13", names, ["d3-asdelivered-deadline"], {"bound", "early"}, random_n=3000 if th else 500)
+    wrapper_pipeline(run, "C13", names, ["d3-asdelivered-deadline"], {"bound", "early"}, random_n=3000 if th else 500,
+                     temporal=("CancelWakes", "DeadlineWakes", "TimeoutWakes"))
 
 
 def c19(run):
     th = run.tier == "thorough"
     names = ["b3f", "q3n", "b3l2"] + (["b4", "q4", "q4l", "q4t", "q3", "q3l"] if th else [])
-    wrapper_pipeline(run, "C19", names, [], {"gate", "starved", "lostwake"}, random_n=4000 if th else 800, extra_invs=LIVE, handoff=True)
+    wrapper_pipeline(run, "C19", names, [], {"gate", "starved", "lostwake"}, random_n=4000 if th else 800, extra_invs=LIVE, handoff=True,
+                     temporal=("WakeUp",), serve=True)
 
 
 # ------------------------------------------------------------------ DefaultLimiter (C09 C05, parts of C02 C20)
@@ -893,6 +936,11 @@ def c14(run):
         seen.add(key)
         run.report("gRPC %s: recorded operation rejected by the contract: expected %s, logged %s" % (rj["op"]["kind"], json.dumps(rj["expected"]), json.dumps(rj["logged"])),
                    {"reject": rj, "rerun": "VERIF_SEED=%d bin/check C14" % run.seed}, {"kind": rj["op"]["kind"], "grant": rj["op"]["grant"]})
+    # design level: the stream wrapper with a receive and a send in flight (token in a local variable: exactly once;
+    # token parked in a per-stream field: TLC finds the double / missing completion)
+    gs = "CONSTANTS SharedSlot = %s\nSPECIFICATION Spec\nINVARIANTS AtMostOnce ExactlyOnce\nCHECK_DEADLOCK FALSE\n"
+    run.mc("GrpcStream", "gs.cfg", cfg_text=gs % "FALSE", label="mc:GrpcStream/local-token")
+    run.neg("GrpcStream", "gsn.cfg", cfg_text=gs % "TRUE", label="neg:GrpcStream/per-stream-slot")
     # full duplex: one RecvMsg and one SendMsg overlapping on the same wrapped stream, every order of entering and leaving
     # the transport; each operation's own observation must be the one the contract fixes for it alone
     out, _ = run.go("^TestGrpcDuplex$")
